@@ -265,6 +265,20 @@ static void c14a(void) {
 /* large filters with block counts that are not powers of two, many sequential and spread keys: the block index is a multiply-shift of the
  * UPPER 32 hash bits only, which no small filter can distinguish from other plausible formulas; and NaN payloads hash as their bytes */
 static void c20_large(void) {
+    /* filters beyond 4 GiB (block byte offsets need more than 32 bits): the memory is reserved, only the touched blocks become resident */
+    mc_stage("bloom.filters-beyond-4GiB");
+    { static const uint64_t GIB[] = { 4, 6 };
+      for (int gi = 0; gi < 2; gi++) { if (!mc_next()) continue; size_t bytes = (size_t)GIB[gi] << 30; if (gi == 0) bytes += 64; uint64_t nb64 = bytes / 32;
+          mc_desc("bloom:huge;bytes=%zu", bytes); mc_feature("bloom"); mc_case_key(mc_mix(0x206, (uint64_t)gi)); mc_nontrivial(); mc_budget_ms(60000);
+          carquet_bloom_filter_t* f = carquet_bloom_filter_create(bytes); uint8_t* ref = calloc(bytes, 1);
+          if (!f || !ref) { mc_count("bloom.huge.reservation-refused", 1); if (f) carquet_bloom_filter_destroy(f); free(ref); continue; }
+          if (carquet_bloom_filter_size(f) != bytes) mc_fail("bloom.huge.size", "create(%zu) gives %zu bytes", bytes, carquet_bloom_filter_size(f));
+          const uint8_t* d = carquet_bloom_filter_data(f); int bad = 0;
+          for (int k = 0; k < 96 && !bad; k++) { uint64_t hi = k < 32 ? ((uint64_t)k << 27) | 5u : k < 64 ? 0xFFFFFFFFu - (uint64_t)(k - 32) * 0x01010101u : (uint64_t)(k - 63) * 0x07FFFFF1u; uint64_t h = (hi << 32) | (0x9E3779B9u * (uint64_t)(k + 1) & 0xFFFFFFFFu);
+              carquet_bloom_filter_insert_hash(f, h); ref_sbbf_insert(ref, (uint32_t)nb64, h); uint64_t blk = ((h >> 32) * nb64) >> 32;
+              if (!carquet_bloom_filter_check_hash(f, h)) { mc_fail("bloom.huge.false-negative", "filter of %zu bytes: hash %016llx (block %llu, byte offset %llu) inserted, reported absent", bytes, (unsigned long long)h, (unsigned long long)blk, (unsigned long long)(blk * 32)); bad = 1; }
+              else if (memcmp(d + blk * 32, ref + blk * 32, 32)) { mc_fail("bloom.huge.bits-differ-from-parquet-sbbf", "filter of %zu bytes: block %llu (byte offset %llu) differs from the reference after inserting %016llx", bytes, (unsigned long long)blk, (unsigned long long)(blk * 32), (unsigned long long)h); bad = 1; } }
+          carquet_bloom_filter_destroy(f); free(ref); } }
     mc_stage("bloom.large-filters.non-power-of-two-blocks");
     static const uint32_t NB[] = { 3, 5, 1000, 4097, 100001 };
     for (int bi = 0; bi < 5; bi++) for (int fam = 0; fam < 3; fam++) {
